@@ -44,6 +44,8 @@ def cases(tier):
                 # somebody tags the recorded call nodes between two executions (`redun tag add <call_hash> reviewed=true`)
                 if n == 2:
                     out.append({"ctxs": list(combo), "mode": "split", "shallow": shallow, "tag_between": True})
+                    # every execution is a new process: a fresh backend object on the same database file
+                    out.append({"ctxs": list(combo), "mode": "split", "shallow": shallow, "fresh_backend": True})
     if tier == "quick":
         for combo in [("A", "none", "A"), ("none", "A", "none"), ("A", "B", "none")]:
             for shallow in (False, True):
@@ -68,7 +70,9 @@ def scenario(case, prefix):
             got = outs[0][1] if outs[0][0] == "ok" else None
         else:
             got = []
-            for c in case["ctxs"]:
+            for k, c in enumerate(case["ctxs"]):
+                if k and case.get("fresh_backend"):
+                    env.reopen_backend()
                 o = env.run(call(c, case["shallow"], case.get("direct", False)))
                 outs.append(o)
                 if case.get("tag_between"):
@@ -96,7 +100,7 @@ def explore_case(arg):
         if res["got"] != want:
             i = next((k for k, (g, w) in enumerate(zip(res["got"], want)) if g != w), 0)
             prev = case["ctxs"][:i]
-            sig = f"shared-across-contexts:{(str(case.get('direct')) + ':').replace('True', 'direct') if case.get('direct') else ''}{'tagged:' if case.get('tag_between') else ''}{'rootctx:' if case.get('root_ctx') else ''}{case['mode']}:{'shallow' if case['shallow'] else 'full'}:call={case['ctxs'][i]}:after={'+'.join(prev) or '-'}"
+            sig = f"shared-across-contexts:{(str(case.get('direct')) + ':').replace('True', 'direct') if case.get('direct') else ''}{'tagged:' if case.get('tag_between') else ''}{'fresh-backend:' if case.get('fresh_backend') else ''}{'rootctx:' if case.get('root_ctx') else ''}{case['mode']}:{'shallow' if case['shallow'] else 'full'}:call={case['ctxs'][i]}:after={'+'.join(prev) or '-'}"
             viol.append((sig, {"case": case, "choices": choices},
                          f"{case}: call #{i} with context '{case['ctxs'][i]}' returned {res['got'][i] if i < len(res['got']) else res}, expected {want[i]} (all: {res['got']})"))
 
@@ -133,7 +137,7 @@ def run(ctx):
         "cases": len(cs), "cases_full_interleaving_tree": sum(1 for r in res if r["full"]), "exhaustive": all(r["full"] for r in res),
         "rule": "programs calling mid(1) -> leaf(1, v=get_context('v')) two (thorough: three) times under contexts from {none, A, B} in every "
         "order: forced order (seq), concurrent (list), or split over successive executions on one backend; check_valid full and shallow; variants where the context is read by the called task's own default argument, where the "
-        "context-reading call itself is a default argument, and where all call nodes get an extra tag between executions; all "
+        "context-reading call itself is a default argument, and where all call nodes get an extra tag between executions, and where every execution uses a new backend object on the same database file; all "
         "completion interleavings; oracle: every call returns the value belonging to its own effective context",
         "samples": cs[:3],
     }, "assumptions": ["see C08 evidence for the schedule space"]}
